@@ -316,4 +316,7 @@ func VfC09_modify2() { vfC09(2) }
 // operations] - with every content symbolic (modes, 128-bit ids, per-operation stamps): reaches the operation
 // handling that two free messages cannot.
 func VfC09_session3() { vfC09K(3, []int{vfMParams, vfMElection, vfMOp}) }
-func VfC09_modify3() { vfC09(3) }
+// modify3: parameters, an election announcement, then ONE free message of any kind (three entirely free messages do not
+// finish within the thorough budget since the two- and three-field message kinds were added; a first message other
+// than parameters ends or rejects the RPC at once, which modify2 covers)
+func VfC09_modify3() { vfC09K(3, []int{vfMParams, vfMElection, -1}) }
